@@ -176,6 +176,24 @@ var c13unmarshal = Register("C13", "C13.unmarshal", func(a c13UnmarshalArgs) *Vi
 		return nil
 	case isJSONNumber(a.Data):
 		p, perr := d128.Parse(a.Data)
+		// the expected value is also computed independently of the package's parser, so that a
+		// defect shared by Parse and UnmarshalJSON (they use the same routine) is still visible
+		if lit := classifyLiteral(a.Data); lit.Class == litValid && lit.Kind == ref.Finite {
+			want, overflow, alt := lit.expected(d128.ToNearestEven)
+			if overflow {
+				if err == nil {
+					return violf("UnmarshalJSON(%s) returned no error although the number is beyond the largest Decimal (stored %s)", show, ref.Decode(u))
+				}
+			} else {
+				g := ref.Decode(u)
+				if err != nil {
+					return violf("UnmarshalJSON(%s): %v; the number is representable as %s", show, err, want)
+				}
+				if !ref.SameVal(g, want) && !(alt != nil && ref.SameVal(g, *alt)) {
+					return violf("UnmarshalJSON(%s) = %s, want %s", show, g, want)
+				}
+			}
+		}
 		if perr != nil {
 			if !errors.Is(perr, strconv.ErrRange) {
 				return violf("Parse(%s) rejects an RFC 8259 number: %v", show, perr)
